@@ -84,7 +84,7 @@ func fieldKeys(in *ir.Message, body *jn) []string {
 		}
 	}
 	for _, f := range in.Fields {
-		add(ir.JSONName(f.Name))
+		add(f.JSON())
 	}
 	return out
 }
@@ -161,7 +161,7 @@ func jsonMutants(r *gen.R, sh *c11Shape, in *ir.Message, valid *jn, n int) []c11
 				default:
 					for i, m := range t.obj {
 						for _, f := range in.Fields {
-							if ir.JSONName(f.Name) == m.key && f.Name != m.key {
+							if f.JSON() == m.key && f.Name != m.key {
 								t.obj[i].key = f.Name
 							}
 						}
